@@ -94,6 +94,16 @@ func (vc *VC) globalDecls() string {
 		fmt.Fprintf(&sb, "(declare-const %s!0 %s)\n", k, vc.heapSorts[k].SMT())
 	}
 	sb.WriteString("(declare-const top!0 Int)\n(assert (>= top!0 0))\n")
+	{
+		var pn []string
+		for n := range vc.pureDecls {
+			pn = append(pn, n)
+		}
+		sort.Strings(pn)
+		for _, n := range pn {
+			sb.WriteString(vc.pureDecls[n] + "\n")
+		}
+	}
 	if vc.cs != nil {
 		var names []string
 		for n, d := range vc.cs.Defs {
